@@ -80,6 +80,7 @@ type Agent struct {
 	initOnce sync.Once
 	mu       sync.Mutex
 	started  bool
+	doneCh   chan struct{} // closed when the current run (start attempt and update loop) is over
 	stopCh   chan struct{}
 	waitCh   chan error
 	nodeInfo ethnode.UserAgent // cached during Start
@@ -103,8 +104,35 @@ func (a *Agent) Start(p pool.Pool) error {
 		a.mu.Unlock()
 		return ErrAlreadyStarted
 	}
+	a.started = true
+	done := make(chan struct{})
+	a.doneCh = done
 	a.mu.Unlock()
 
+	if err := a.start(p); err != nil {
+		// Nothing is left running
+		a.finish(done)
+		return err
+	}
+
+	go func() {
+		err := a.serveUpdates(p)
+		a.finish(done)
+		a.waitCh <- err
+	}()
+	return nil
+}
+
+// finish marks the current run as over, so that the agent can be started again.
+func (a *Agent) finish(done chan struct{}) {
+	a.mu.Lock()
+	a.started = false
+	a.mu.Unlock()
+	close(done)
+}
+
+// start registers the node on the pool and does the first update.
+func (a *Agent) start(p pool.Pool) error {
 	startCtx, cancel := context.WithTimeout(context.Background(), startTimeout)
 	defer cancel()
 
@@ -137,14 +165,7 @@ func (a *Agent) Start(p pool.Pool) error {
 		a.PoolMessageCallback(resp.Message)
 	}
 
-	if err := a.UpdatePeers(startCtx, p); err != nil {
-		return err
-	}
-
-	go func() {
-		a.waitCh <- a.serveUpdates(p)
-	}()
-	return nil
+	return a.UpdatePeers(startCtx, p)
 }
 
 // Whitelist a peer for this node.
@@ -156,7 +177,20 @@ func (a *Agent) Whitelist(ctx context.Context, nodeID string) error {
 // Stop shuts down all the active connections cleanly.
 func (a *Agent) Stop() {
 	a.init()
-	a.stopCh <- struct{}{}
+	a.mu.Lock()
+	done := a.doneCh
+	a.mu.Unlock()
+	if done == nil {
+		// Not started yet: stop it as soon as it runs.
+		a.stopCh <- struct{}{}
+		return
+	}
+	select {
+	case a.stopCh <- struct{}{}:
+	case <-done:
+		// The run is already over (stopped, failed to start, or the update
+		// loop ended on an error): nothing to stop.
+	}
 }
 
 // Wait blocks until the agent is stopped. It returns any errors that occur
@@ -180,10 +214,6 @@ func (a *Agent) serveUpdates(p pool.Pool) error {
 				return err
 			}
 		case <-a.stopCh:
-			a.mu.Lock()
-			a.started = false
-			a.mu.Unlock()
-
 			// FIXME: Does it make sense to call a.disconnectPeers(...) here?
 			return nil
 		}
